@@ -48,11 +48,33 @@ def positionalise(api, fn, args, kwargs):
     return tuple(new), {}
 
 
+NUMPY_SCALARS = not os.environ.get('VERIF_NO_NUMPY_SCALARS')
+
+
+def numpyise(rng, args, kwargs):
+    """the same call with (some of) its Python int / float arguments as np.int64 / np.float64 - what a caller holds who computed a
+    step size, threshold, rank or index with NumPy (top-level arguments only; bools, None, strings and containers stay)"""
+    n = [0]
+
+    def conv(v):
+        if isinstance(v, bool) or not isinstance(v, (int, float)) or rng.random() < 0.4:
+            return v
+        if isinstance(v, float) and not np.isfinite(v):
+            return v
+        n[0] += 1
+        return np.int64(v) if isinstance(v, int) else np.float64(v)
+    return tuple(conv(a) for a in args), {k: conv(v) for k, v in kwargs.items()}, n[0]
+
+
 def call(api, fn, *args, prop=None, tags=(), detail=None, refusals=(), refusal_pred=None, **kwargs):
     """Run fn(*args, **kwargs) on an admissible input.  Returns (ok, result).  An exception escaping is a
     violation (`exception`) of `prop` unless its type is listed in `refusals` (a documented refusal for this
     input class)."""
     c = core.ctx()
+    if c is not None and c.aux_rng is not None and NUMPY_SCALARS and c.aux_rng.random() < 0.15:
+        args, kwargs, n = numpyise(c.aux_rng, args, kwargs)
+        if n:
+            c.events['numpy_scalar_arguments:' + api] += 1
     if kwargs and c is not None and c.aux_rng is not None and c.aux_rng.random() < 0.25:
         a2, k2 = positionalise(api, fn, args, kwargs)
         if not k2 and a2 is not args:
